@@ -156,7 +156,11 @@ abbrev Tree := List (Path × Body)
 
 inductive Lid where
   | g                      -- global file-based loader (module name ``), root `env`
-  | m (mod : String)       -- module loader, root `modules/<mod>`, parent = g
+  | m (mod : String)       -- module loader, root `modules/<mod>`, module name `mod`; parent = g, or the system loader in the
+                           -- flat topology.  `mod` may be the pseudo name `environment`: a loader the constructor and
+                           -- `isGlobal()` treat as global (paths not module-name relative) while `find` filters qualified
+                           -- names by it — the three kinds of loader `newFileBasedLoader` distinguishes are `g`,
+                           -- `m "environment"` and `m <ordinary name>`
   | d                      -- dependency loader over all module loaders
   deriving DecidableEq, Repr
 
@@ -200,7 +204,8 @@ def Lid.moduleName : Lid → String
   | .m mod => mod
   | _ => ""
 
-/-- `newFileBasedLoader` + `newPuppetTypePath` -/
+/-- `newFileBasedLoader` + `newPuppetTypePath`: the only registered `px.PathType` is `PuppetDataTypePath` (`types`, `.pp`);
+    `moduleNameRelative = !(moduleName == "" || moduleName == "environment")` -/
 def spOf : Lid → SmartPath
   | .m mod => { root := ["modules", mod], relativePath := "types", extension := ".pp", moduleName := mod,
                 moduleNameRelative := !isGlobalMod mod }
